@@ -30,6 +30,7 @@ macro_rules
     | exact S_expectBlockIndent
     | exact S_tryConsume _ _
     | exact S_consume _ _ _
+    | exact S_swallowAll _ _ _ _ _
     | exact S_parseID _ _
     | exact S_optYield _ _
     | exact S_calleeTail _ _ _ _ _
